@@ -596,8 +596,12 @@ pub async fn run_network(sc: Scenario) -> NetResult {
             }
             "freeze" | "thaw" => {
                 if let Some(p) = net.proxies.get(&(st.from, st.to)) {
-                    log.ev(0, "d", json!({"e": "cut", "from": st.from, "to": st.to, "dir": st.a, "after": 0}));
-                    p.ctl.freeze(st.a == "freeze");
+                    log.ev(0, "d", json!({"e": "cut", "from": st.from, "to": st.to, "dir": st.a, "after": st.after}));
+                    if st.a == "freeze" && st.after > 0 {
+                        p.ctl.arm_freeze(st.dir != "down", st.after);
+                    } else {
+                        p.ctl.freeze(st.a == "freeze");
+                    }
                     net.count("freeze_steps");
                 }
             }
